@@ -175,6 +175,8 @@ def events(scn, trace, nm: Names) -> list[str]:
             continue
         if k == "restarted" and crashed:
             sn = e["snap"]
+            for key in sn.get("abs_done", []):
+                out.append(f"EAbs {nm.key(key)}")        # what the database gave back
             out.append(f"EAdopt {q.clist(nm.tid(i) for i in sn['to_hold'])} {q.copt(sn['hold_point'], q.cz)} "
                        f"{q.cz(sn['stop_point'])} {opt_tid(sn.get('stop_task'))}")
             out.append("ERestartDone")
